@@ -449,7 +449,8 @@ DEFERRED_API = ('queue_command', 'get_info', 'get_info_raw', 'get_info_single', 
                 'get_conf_raw', 'set_conf', 'signal', 'add_event_listener', 'remove_event_listener', 'save', 'attach_protocol',
                 '_add_ephemeral_service', '_await_descriptor_upload', '_create_socks_endpoint', 'set_attacher', 'authenticate',
                 'protocolinfo', '_add_events', 'create', 'connect', 'when_built', 'when_connected', 'when_done', 'add_endpoint',
-                '_validate_ports', 'available_tcp_port', '_get_defaults', 'post_bootstrap')
+                '_validate_ports', 'available_tcp_port', '_get_defaults', 'post_bootstrap', 'get_config',
+                '_default_socks_endpoint', 'create_socks_endpoint')
 
 
 def dropped_deferreds(run, rid, units, what):
